@@ -154,50 +154,4 @@ theorem inverse_scrollDown (d : Doc) (i : Nat) : InverseAt (.scrollDown i) d := 
 
 
 
-/-- **UndoLayerChange**, wholesale branch (snapshot size = layer size): the law holds whenever both snapshots are
-    observationally COMPLETE copies of the layer's row storage before/after the edit — true for `erase_selection`
-    (clones of the layer) and for whole-layer area operations on layers without hidden content.  It is false when
-    `Layer::from_layer` snapshots (visible cells only) meet hidden rows/cells: findings
-    `UndoLayerChange(area|stamp):undo-mismatch:hidden`.  The stamp branch (partial areas) is covered by the oracle only. -/
-theorem inverse_layerChange_wholesale_partial (d : Doc) (i : Nat) (px py : Int) (old new l l' : LayerM)
-    (hl : d.layers[i]? = some l)
-    (hsz : old.w = l.w ∧ old.h = l.h ∧ new.w = l.w ∧ new.h = l.h ∧ l'.w = l.w ∧ l'.h = l.h ∧ l'.props = l.props)
-    (hold : rowsGet old.lines = rowsGet l.lines) (hnew : rowsGet new.lines = rowsGet l'.lines) :
-    Undoable (.layerChange i px py old new) d.obs (d.setLayer i l').obs := by
-  obtain ⟨h1, h2, h3, h4, h5, h6, h7⟩ := hsz
-  refine ⟨(· = .layerChange i px py old new), (· = .layerChange i px py old new), rfl, ?_, ?_⟩
-  · intro o ho e' he'
-    subst ho
-    have hd' : (d.setLayer i l').layers[i]? = some l' := getElem?_setLayer_self d i _ l hl
-    obtain ⟨m, hm1, hm2⟩ := obs_some he'.symm hd'
-    have mw : m.w = l.w := (congrArg (·.1) hm2).trans h5
-    have mh : m.h = l.h := (congrArg (·.2.1) hm2).trans h6
-    have mp : m.props = l.props := (congrArg (·.2.2.1) hm2).trans h7
-    refine ⟨_, e'.setLayer i (layerChangeApply m px py old), ?_, ?_, rfl⟩
-    · simp [UndoOp.undo, onLayer, hm1]
-    · have e1 : (layerChangeApply m px py old).obs = l.obs := by
-        have : m.w = old.w ∧ m.h = old.h := ⟨by rw [mw, h1], by rw [mh, h2]⟩
-        simp only [layerChangeApply, this, and_self, if_true, LayerM.obs, mw, mh, mp, hold]
-        rw [h1, h2]
-      rw [obs_setLayer, e1]
-      have g1 := obs_w he'; have g2 := obs_h he'; have g3 := obs_layers he'
-      refine DObs.ext' g1 g2 ?_
-      show (e'.layers.map LayerM.obs).set i l.obs = d.layers.map LayerM.obs
-      rw [g3]
-      show ((d.setLayer i _).layers.map LayerM.obs).set i l.obs = _
-      simp only [Doc.setLayer, List.map_set, List.set_set]
-      exact map_set_self _ _ _ _ hl
-  · intro o ho e he
-    subst ho
-    obtain ⟨m, hm1, hm2⟩ := obs_some he.symm hl
-    have mw : m.w = l.w := congrArg (·.1) hm2
-    have mh : m.h = l.h := congrArg (·.2.1) hm2
-    have mp : m.props = l.props := congrArg (·.2.2.1) hm2
-    refine ⟨_, e.setLayer i (layerChangeApply m px py new), ?_, ?_, rfl⟩
-    · simp [UndoOp.redo, onLayer, hm1]
-    · apply obs_setLayer_congr he
-      have : m.w = new.w ∧ m.h = new.h := ⟨by rw [mw, h3], by rw [mh, h4]⟩
-      simp only [layerChangeApply, this, and_self, if_true, LayerM.obs, mw, mh, mp, hnew, h5, h6, h7]
-      try rw [h3, h4]
-
 end IcyVerif.Undo
